@@ -7,7 +7,7 @@
 From Coq Require Import ZArith List Bool.
 From GV.Gen Require Import Configs.
 From GV.Model Require Import Check.
-From GV.Lemmas Require Import RandL C13L C13W C13M.
+From GV.Lemmas Require Import RandL C13L C13W C13M C13X C13R.
 Import ListNotations.
 Open Scope Z_scope.
 
@@ -67,6 +67,21 @@ Proof. exact memory_outcome. Qed.
 Theorem C13_memory_wf : forall h w cs own r, 5 <= h -> 5 <= w -> w mod 2 = 1 -> NoDup cs -> ~ In 0 cs -> (2 <= length cs)%nat ->
   Leaf (reset_memory h w cs own) r -> exists s, r = Ok s /\ wf_check (PMemory h w cs) s = true.
 Proof. exact memory_wf. Qed.
+(* ---- `crossing`, EVERY odd shape >= 5x5, every number of rivers, every river object other than an exit, every outcome (which rivers, in
+        which order they are crossed, where each opening lands): never an error (the limits between which an opening is drawn are always at
+        least two apart), and the state is well-formed -- the wall boundary is unbroken, there is exactly one exit, the agent stands
+        empty-handed on the floor cell (1,1) ---- *)
+Theorem C13_crossing_wf : forall h w n ty own r, 5 <= h -> 5 <= w -> h mod 2 = 1 -> w mod 2 = 1 -> 0 < n -> ty <> ty_Exit ->
+  Leaf (reset_crossing h w n ty own) r -> exists s, r = Ok s /\ wf_check (PCrossing h w n ty) s = true.
+Proof. exact crossing_wf. Qed.
+(* ---- `rooms`, EVERY shape and EVERY pair of split lists that start at 0 and end at the last row / column with the inner walls strictly
+        inside (what the layout's linspace gives, e.g. [0; 3; 6] for the shipped 7x7 four-rooms), every outcome (where each passage is
+        opened, where agent and exit land): no ill-formed state and no exception other than ValueError -- unbroken wall boundary, exactly
+        one exit, the agent empty-handed on a floor cell ---- *)
+Theorem C13_rooms_wf : forall h w ym xm, 2 <= h -> 2 <= w -> (forall y, In y ym -> 1 <= y <= h - 2) -> (forall x, In x xm -> 1 <= x <= w - 2) ->
+  forall own r, Leaf (reset_rooms h w (0 :: ym ++ [h - 1]) (0 :: xm ++ [w - 1]) own) r ->
+  r = Err ValueError \/ exists s, r = Ok s /\ wf_check (PRooms h w (0 :: ym ++ [h - 1]) (0 :: xm ++ [w - 1])) s = true.
+Proof. exact rooms_wf. Qed.
 (* ---- `teleport`, every shape >= 4x4, every outcome: never an error; one exit, exactly two telepods of one colour, agent on floor ---- *)
 Theorem C13_teleport_wf : forall h w own r, 4 <= h -> 4 <= w -> Leaf (reset_teleport h w own) r ->
   exists s, r = Ok s /\ wf_check (PTeleport h w) s = true.
